@@ -191,7 +191,8 @@ def check_cache(u):
                 errs.append("%s not attached to this IR but get_by_uuid finds %r" % (name, type(got).__name__))
         if ir.get_by_uuid(U(9999)) is not None:
             errs.append("unknown uuid found")
-        extra = set(ir._local_uuid_cache) - {n.uuid for _, n in u.all_nodes()}
+        # (the table itself is private: if the tree under test keeps it under another name, only the public lookups above apply)
+        extra = set(getattr(ir, "_local_uuid_cache", ())) - {n.uuid for _, n in u.all_nodes()}
         if extra:
             errs.append("table holds foreign uuids")
     return errs
